@@ -1,14 +1,17 @@
 ----------------------------- MODULE DaneTrace -----------------------------
 (***************************************************************************)
 (* Code -> model for C13.  trace.ndjson holds one "Row" event per input    *)
-(* row the harness ran through the real verifyDANE / daneDelivery.CheckConn *)
-(* (and, for lookup = "disc", the real discoverTLSA against a DNS server): *)
-(*   [t, seq, e |-> "Row", in |-> <input of Dane.tla>, out |-> [auth,      *)
-(*    refuse, temp, ...]]                                                   *)
-(* For every row TLC evaluates the property predicates of Dane.tla on the  *)
-(* recorded output (viol = names of the false ones) and compares it with   *)
-(* the documented rule (drift).  Only rows that are not plainly accepted   *)
-(* are listed; n / accepted are the counts.                                *)
+(* row (history) the harness ran through the real mx_auth.dane code:       *)
+(*   [t, seq, e |-> "Row", in |-> <input of Dane.tla: mode, rounds>,       *)
+(*    out |-> [rounds |-> one [auth, refuse, temp, ...] per round]]         *)
+(* A history of one round with an injected lookup outcome is the real      *)
+(* verifyDANE / daneDelivery.CheckConn; rounds with lookup = "disc" are the *)
+(* real PrepareConn (discoverTLSA against a DNS server) and CheckConn on    *)
+(* ONE delivery object for all rounds of the history.                       *)
+(* For every row TLC evaluates the property predicates of Dane.tla on each *)
+(* observed round with that round's own records (viol = names of the false *)
+(* ones) and compares the output with the documented rule (drift).  Only   *)
+(* rows that are not plainly accepted are listed; n / accepted are counts. *)
 (***************************************************************************)
 EXTENDS Dane
 
@@ -16,10 +19,17 @@ Rows == ndJsonDeserialize("trace.ndjson")
 
 tvars == <<in>>
 
-OutOf(r) == [auth |-> r.out.auth, refuse |-> r.out.refuse, temp |-> r.out.temp]
-Bad(r) == Viol(r.in, OutOf(r)) # {} \/ OutOf(r) # Rule(r.in)
-Verdict(r) == [t |-> r.t, drift |-> OutOf(r) # Rule(r.in), driftAt |-> r.seq,
-               viol |-> Viol(r.in, OutOf(r))]
+OutOf(r) == [k \in DOMAIN r.out.rounds |->
+               [auth |-> r.out.rounds[k].auth, refuse |-> r.out.rounds[k].refuse, temp |-> r.out.rounds[k].temp]]
+WellFormed(r) == Len(r.out.rounds) = Len(r.in.rounds)
+DriftRounds(r) == {k \in Observed(r.in) : OutOf(r)[k] # RuleH(r.in)[k]}
+BadRounds(r) == {k \in Observed(r.in) : Viol(r.in.rounds[k], OutOf(r)[k]) # {}}
+Bad(r) == ~WellFormed(r) \/ DriftRounds(r) # {} \/ BadRounds(r) # {}
+Verdict(r) ==
+  IF ~WellFormed(r)
+  THEN [t |-> r.t, drift |-> TRUE, driftAt |-> r.seq, viol |-> {}, rounds |-> {}, malformed |-> TRUE]
+  ELSE [t |-> r.t, drift |-> DriftRounds(r) # {}, driftAt |-> r.seq,
+        viol |-> ViolH(r.in, OutOf(r)), rounds |-> BadRounds(r) \cup DriftRounds(r), malformed |-> FALSE]
 
 Eval ==
   LET bad == {i \in 1..Len(Rows) : Bad(Rows[i])} IN
